@@ -171,11 +171,14 @@ func run(dir, simrtSrc, sitesOut string, access bool, accessTypes map[string]boo
 		sitesOut = filepath.Join(dir, "simrt", "sites.json")
 	}
 	tab.UnmodelledSync = Warnings
-	js, err := json.MarshalIndent(tab, "", " ")
-	if err != nil {
+	var js bytes.Buffer
+	enc := json.NewEncoder(&js)
+	enc.SetIndent("", " ")
+	enc.SetEscapeHTML(false) // keep "<pkgvar>" readable
+	if err := enc.Encode(tab); err != nil {
 		return err
 	}
-	if err := os.WriteFile(sitesOut, append(js, '\n'), 0o644); err != nil {
+	if err := os.WriteFile(sitesOut, js.Bytes(), 0o644); err != nil {
 		return err
 	}
 	fmt.Printf("simrewrite: %d files, %d sites %v, uncontrolled_map_ranges=%d, hoisted_map_ranges=%d, skipped_access=%d %v, filtered_access=%d, %s\n",
